@@ -336,8 +336,12 @@ func c11CheckOrdering(ctx *vfCtx, label string, in []PDU, f func([]PDU) []PDU, r
 }
 
 func c11Gen(t *rapid.T) c11Case {
+	return c11GenAlgo(t, rapid.IntRange(0, 2).Draw(t, "algo"))
+}
+
+func c11GenAlgo(t *rapid.T, algo int) c11Case {
 	var g grCase
-	switch rapid.IntRange(0, 2).Draw(t, "algo") {
+	switch algo {
 	case 0:
 		g = c10GenV1(t)
 	case 1:
@@ -365,6 +369,14 @@ func c11Gen(t *rapid.T) c11Case {
 }
 
 func init() {
+	// the same check per algorithm, as separate sub-properties (separate worker processes: three
+	// times the cases in the same wall time)
+	for i, name := range []string{"v1", "v2", "v2.1"} {
+		i := i
+		vfRapid("C11/order-independence/"+name,
+			"as C11/order-independence, histories of the room versions that use state resolution "+name+" only",
+			1500, 60000, 16, func(t *rapid.T) c11Case { return c11GenAlgo(t, i) }, c11Check)
+	}
 	vfRapid("C11/order-independence",
 		"non-trivial = at least one conflicted key and at least two permutations evaluated; for orderings: the event set has at least one edge and at least two events without an ancestor in the set. distinct = distinct Case JSON. "+fmt.Sprint("Each case: k permutations of (state sets, events within sets, auth events with duplicated entries), 3 repeated runs, the deprecated entry point under permutation, all-equal sets, and 5 ordering functions"),
 		1500, 60000, 16, c11Gen, c11Check)
